@@ -247,6 +247,9 @@ def register(reg):
         is_eg = subcls(st.fld("__class__", e), con("ExceptionGroup"))
         lst = Val.a(st.fld("exceptions", e))
         m0 = st.l_item(lst, 0)
+        # members of an exception group are exception objects (BaseExceptionGroup's own invariant)
+        st.assume(z3.Implies(is_eg, z3.And(Val.is_ref(m0), 0 <= Val.a(m0), Val.a(m0) < st.alloc,
+                                           subcls(st.fld("__class__", Val.a(m0)), con("BaseException")))))
         single = z3.And(is_eg, st.l_len(lst) == 1, z3.Not(subcls(st.fld("__class__", Val.a(m0)), con("ExceptionGroup"))))
         s_un = st.fork(single, "coalesced")
         s_keep = st.fork(z3.Not(single))
@@ -257,6 +260,7 @@ def register(reg):
             out.append((s_keep, exc))
         return out
     KINDS["acm:CoalesceCM"] = k_coalesce
+    reg._k_coalesce = k_coalesce
 
     def xs_aexit(eng, st, recv, pos, kw, node, awaited):
         """AsyncExitStack.__aexit__(et, ev, tb): runs the entries; returns truthy iff the incoming exception was suppressed"""
